@@ -45,7 +45,7 @@ PROPS = {
         assumptions=[],
     ),
     "C01": dict(
-        units=["u4v_stack", "u4a_ctrl", "u4_plumbing", "u1_int", "u3_str", "u5_array", "u9_opt"],
+        units=["u4v_stack", "u4a_ctrl", "u4_plumbing", "u1_int", "u3_str", "u5v_array", "u5_array", "u9_opt"],
         level="model_checking",
         level_text=("VM half of the property only: every arm of step() that the units cover is verified to run without panic, "
                     "out-of-bounds access, arithmetic overflow or wrong-tag read under its operand precondition (tags as the opcode "
@@ -79,16 +79,18 @@ PROPS = {
         assumptions=[],
     ),
     "C26": dict(
-        units=["u5_array", "u3_str", "u16_prelude"],
+        units=["u5v_array", "u5_array", "u3_str", "u16_prelude"],
         level="model_checking",
-        level_text=("VM array instructions only (ConstructArray, GetIndex, SetIndex, ArrayPush, ArrayPushIntImm, ArrayLength, ArrayPop, "
-                    "DeconstructArray) on the real pointer code against a list model: every array length 0..3, all element values and all "
-                    "i64 indices; out-of-range indexing and popping an empty array stop with the array-out-of-bounds runtime error."),
-        level_note=("VM arms bounded by array length <= 3. The loop-free prelude members len/is_empty/push/pop/swap/remove/bounds are cut from "
+        level_text=("VM array instructions: the element-level arms GetIndex, SetIndex, ArrayLength, ArrayPop, ArrayPush, ArrayPushIntImm are "
+                    "lifted verbatim and PROVED by Verus against the sequence model for arrays of every length, all element values and all i64 "
+                    "indices (the array operand enters the lifted arm as a parameter, rule R8; the push arms use an assumed contract of std Vec, "
+                    "rule R9); all eight arms (also ConstructArray, DeconstructArray) additionally run on the real pointer code under Kani at "
+                    "every array length 0..3; out-of-range indexing and popping an empty array stop with the array-out-of-bounds runtime error."),
+        level_note=("Kani obligations bounded by array length <= 3 (ConstructArray/DeconstructArray only there). The loop-free prelude members len/is_empty/push/pop/swap/remove/bounds are cut from "
                     "modules/prelude.abra and checked against a list model by the unit's own VC generator (Z3 sequences; remove.permutation bounded to "
                     "lists <= 6, the rest for all lengths), with the VM-arm contracts as the meaning of the primitives. clear/find/contains/filled/clone/"
                     "iteration/sort contain loops in Abra source and are not decided. string_nth_byte bounds is a Verus proof in u3_str."),
-        technique="Kani harnesses on the real vm.rs (one per concrete array length) + own VC generator -> Z3 for loop-free prelude array members + Verus for StringNthByte",
+        technique="Verus on lifted real array arms (all lengths) + Kani harnesses on the real vm.rs (one per concrete array length) + own VC generator -> Z3 for loop-free prelude array members + Verus for StringNthByte",
         scope="array arms of the VM",
         assumptions=[],
     ),
@@ -187,7 +189,7 @@ PROPS = {
         scope="maybe_gc, start_mark_phase, mark, process_gray, write_barrier, sweep, object constructors, heap-touching arms",
         assumptions=[]),
     "C07": dict(
-        units=["u6_gc"], level="model_checking",
+        units=["u6_gc", "u5v_array"], level="model_checking",
         level_text=("Drop for VmGreenThread releases every object once with its own layout and heap_size returns to 0 (CBMC double-free/layout/leak checks); "
                     "the owner of static_strings releases what new_static leaked (CBMC memory-leak check); sweep makes progress (ranking function len - index); "
                     "heap accounting: every collector step, constructor and heap-touching arm preserves heap_size == sum of the objects' nbytes (clause of the "
